@@ -26,7 +26,10 @@ func c01Patterns() []string {
 		"||example.org/ads/*", "oogle.c", "xample.o", "example.org/ads/x.js", "/ads/", "ad", "*", "^ads^", "example.org/ads/x.js?a=b&c=d",
 		"/ads?/", "/(banner|ads)/", "x.js|", "|ws://x",
 		// non-ASCII shortcuts: windows of 5 bytes cut through multi-byte characters
-		"||пример.рф^", "реклама", "/реклама/", "/ads/баннер", "ёж"}
+		"||пример.рф^", "реклама", "/реклама/", "/ads/баннер", "ёж",
+		// scheme-prefixed patterns: for host-name requests they are applied to the synthesised http:// URL,
+		// and their first shortcut windows lie inside the scheme
+		"http://example.org^", "http://example", "http://a.com", "http://sub.example.org^", "://example.org", "https://a.com/"}
 	for _, c := range windowColliders {
 		p = append(p, c[0], c[1], "/"+c[0]+"/x", c[1]+"^")
 	}
@@ -95,6 +98,9 @@ func checkC01(c c01Case, rec *Rec) *Violation {
 	}
 	for _, q := range c.Reqs {
 		got := map[string]bool{}
+		// compared as a SET, as the property is stated: the unchanged engine itself
+		// reports a rule twice when two of its $domain values are suffixes of the
+		// source host (one hit per bucket), so multiplicity is not part of the contract
 		for _, r := range engine.MatchAll(mkReq(q)) {
 			got[r.Text()] = true
 			if !listsOf[r.Text()][r.GetFilterListID()] {
